@@ -12,8 +12,11 @@ an int and the equal float count as the same number).
 Oracle (independent of the model): pass count within [1, iterations]; early stop
 => every formula cell of the target's cone changed by at most the tolerance in
 the last pass and lies within q/(1-q)*tolerance of the exact fixed point (rational
-Gaussian elimination); acyclic workbooks: the result equals what a fresh
-non-iterative compiler returns for the same workbook contents.
+Gaussian elimination); a contracting system of cell formulas whose cone was built
+by an earlier evaluate is, after p passes, within q^p of its distance to the fixed
+point before the call (the statement of C06_decay, on the implementation); acyclic
+workbooks: the result equals what a fresh non-iterative compiler returns for the
+same workbook contents.
 """
 import ast
 import hashlib
@@ -29,8 +32,11 @@ EXPLANATION = (
     "Model/Iter.v is hand-written (closures, threading.local state, openpyxl are outside the "
     "translated subset); the tie to the source is the differential run plus a fingerprint of the "
     "anchored functions' ASTs. C06_bounded, C06_tolerance, C06_contraction_step/_bound are proved for "
-    "all workbooks/systems; C06_acyclic_partial excludes range nodes and first use (both refuted: "
-    "Refuted/C06_acyclic.v).")
+    "all workbooks/systems; C06_pass_total/C06_fuel_sufficient: the fuel #cells+1 never runs out (any workbook); "
+    "C06_cone_pass/C06_decay/C06_exhausted/C06_converged: end-to-end bounds for contracting systems of cell "
+    "formulas from a built, quiescent cone (q^n decay; q/(1-q)(1+1e-5)tol after an early stop), a state every "
+    "history of evaluates and constant writes produces (C06_ready_*); "
+    "C06_acyclic_partial/_total exclude range nodes and first use (both refuted: Refuted/C06_acyclic.v).")
 
 COLS = 'ABC'
 NROWS = 3
@@ -530,8 +536,10 @@ def oracle(ctx, impl, wb, ops, label, iobs):
     q = max(sum(abs(x) for x in row) for row in A0)
     desc = wb.describe()
     hist = []
+    before = None       # the cells as the previous operation left them
     for o, ob in zip(ops, iobs):
         hist.append([o[0], addr(o[1])] + [x for x in o[2:]])
+        prev_cells, before = before, (ob['state']['cells'] if ob['kind'] != 'raise' else before)
         if ob['kind'] == 'raise':
             if o[0] == 'eval' or ob['exc'] != 'AssertionError':
                 ctx.violation(dict(call=o[0], args=[desc, list(hist)], label=label),
@@ -547,6 +555,7 @@ def oracle(ctx, impl, wb, ops, label, iobs):
         fcone = {c for c in cone if wb.cells[c]['formula']}
         case = dict(call='evaluate', args=[desc, list(hist)], label=label,
                     fresh_cells=bool(fcone - seen_cone), has_range=bool(wb.cone_ranges(t)), kind=wb.kind)
+        settled = cone <= seen_cone       # every cell of the cone was built by an earlier evaluate
         seen_cone |= cone
         p = ob['passes']
         if not (1 <= p <= it):
@@ -574,6 +583,22 @@ def oracle(ctx, impl, wb, ops, label, iobs):
                                       f"q/(1-q)*tol = {bound} from the fixed point {xs[c]}",
                                       impl=cells[c][1], expected=xs[c])
                         break
+        # geometric decay (C06_decay / C06_exhausted, on the implementation): a contracting system of cell
+        # formulas whose cone is already built ends, after p passes, within q^p of its distance before the call
+        # (q over the variables only, as in row_bound_f: references to constants belong to b)
+        qf = max(sum(abs(x) for j, x in enumerate(row) if wb.cells[j]['formula']) for row in A0)
+        if (wb.kind == 'cyclic' and qf < 1 and settled and prev_cells is not None and not case['has_range']
+                and wb.cells[t]['formula'] and exact([ob], wb.scale)):
+            A, b = wb.matrix(values)
+            xs = solve(A, b)
+            if xs is not None and all(isinstance(prev_cells[c][1], Fr) and isinstance(cells[c][1], Fr)
+                                      for c in fcone):
+                e0 = max(abs(prev_cells[c][1] - xs[c]) for c in fcone)
+                e1 = max(abs(cells[c][1] - xs[c]) for c in fcone)
+                ctx.histogram['decay-checked'] = ctx.histogram.get('decay-checked', 0) + 1
+                if e1 > qf ** p * e0:
+                    ctx.violation(case, f"after {p} passes the cone of {addr(t)} is {e1} from the fixed point, "
+                                  f"more than q^{p} * {e0} (q = {qf})", impl=e1, expected=f"<= {qf ** p * e0}")
         if wb.kind == 'acyclic':
             want = as_q(impl.plain_value(wb, values, t))
             if ob['result'] != want:
